@@ -517,9 +517,12 @@ fn dns_entry(case: &Value, rules: &[Rule]) -> CaseResult {
         }
     }
     for (si, (src, li)) in sources.iter().enumerate() {
-        for (qi, name) in ["cached.example", &format!("fresh{si}.example")].iter().enumerate() {
+        // with recursion desired and without: a query that does not ask for recursion is still a query
+        // from this client, and a refused client must not be able to read the cache that way
+        for (qi, name, rd_flag) in [(0usize, "cached.example".to_string(), true), (1, format!("fresh{si}.example"), true), (0, "cached.example".to_string(), false), (2, format!("fresh{si}n.example"), false)] {
+            let name = &name;
             n += 1;
-            let q = rd::encode(&rd::query(0x100 + n as u16, &rd::name(name), rd::T_A, 1, true, None), false);
+            let q = rd::encode(&rd::query(0x100 + n as u16, &rd::name(name), rd::T_A, 1, rd_flag, None), false);
             let mut c = match TcpClient::connect(Some(*src), rig.listen_addr(*li)) {
                 Ok(c) => c,
                 Err(e) => {
@@ -529,12 +532,14 @@ fn dns_entry(case: &Value, rules: &[Rule]) -> CaseResult {
             };
             let _ = c.conn.send_frame(&q);
             let (reply, upq) = serve(&mut rig, &mut c);
-            let sub = json!({"engine":"enet","check":"c08","entry":"dns","list":case["list"],"source":src.to_string(),"name":name});
-            let mk = |oracle: &str, what: String| Violation::new(oracle, format!("acls {} source {src} query {name}: {what}", acl_yaml(rules).trim()), sub.clone()).sig("entry", "dns");
+            let sub = json!({"engine":"enet","check":"c08","entry":"dns","list":case["list"],"source":src.to_string(),"name":name,"rd":rd_flag});
+            let mk = |oracle: &str, what: String| Violation::new(oracle, format!("acls {} source {src} query {name} (RD={}): {what}", acl_yaml(rules).trim(), rd_flag as u8), sub.clone()).sig("entry", "dns").sig("rd", rd_flag);
             match reply.and_then(|b| rd::decode(&b).ok()) {
                 None => res.violations.push(mk("no-reply", "no (well-formed) reply".into())),
                 Some((m, _)) => {
-                    if allowed[si] {
+                    if allowed[si] && !rd_flag {
+                        // what a permitted client gets without asking for recursion is not this property's subject
+                    } else if allowed[si] {
                         if m.rcode() != 0 || m.answer.is_empty() {
                             res.violations.push(mk("permitted-refused", format!("first matching rule grants recursion but rcode is {}", m.rcode())));
                         }
